@@ -23,6 +23,7 @@ type c05Case struct {
 	Chunk int       `json:"chunk"`
 	Delay int       `json:"delay"`
 	Stmt  bool      `json:"stmt_yields,omitempty"`
+	EOFD  bool      `json:"eof_with_data,omitempty"`
 }
 
 type c05 struct{}
@@ -62,6 +63,7 @@ func (c05) Gen(t *Tape, tier string, run int) interface{} {
 		c.Recs = append(c.Recs, genRec(t, len(c.Hdr.Refs), size, i))
 	}
 	c.Stmt = !big && t.Chance("work", 1, 4)
+	c.EOFD = t.Chance("work", 1, 3)
 	return c
 }
 
@@ -138,7 +140,7 @@ func (c05) Exec(x *Exec, ci interface{}) *Verdict {
 		return vd
 	}
 	// (1)/(3) read back
-	rfile := &File{X: x, Name: "f", Data: img, Chunk: c.Chunk, MaxDelay: c.Delay}
+	rfile := &File{X: x, Name: "f", Data: img, Chunk: c.Chunk, MaxDelay: c.Delay, EOFWithData: c.EOFD}
 	var bad *Violation
 	res = x.RunSim("read", estReadSteps(len(img), c.Chunk, c.Kind, c.Delay)+50*len(c.Recs), func() {
 		br, err := bam.NewReader(rfile.As(c.Kind), c.RD)
@@ -270,9 +272,9 @@ func (c05) Shrinks(ci interface{}) []interface{} {
 		n.WC, n.RD = 1, 1
 		out = append(out, &n)
 	}
-	if c.Omit != 0 || c.Chunk != 0 || c.Delay != 0 || c.Level != -1 {
+	if c.Omit != 0 || c.Chunk != 0 || c.Delay != 0 || c.Level != -1 || c.EOFD {
 		n := *c
-		n.Omit, n.Chunk, n.Delay, n.Level = 0, 0, 0, -1
+		n.Omit, n.Chunk, n.Delay, n.Level, n.EOFD = 0, 0, 0, -1, false
 		out = append(out, &n)
 	}
 	return out
